@@ -212,7 +212,9 @@ def make_p_intent_before_rename(ex):
 def p_abandon_only_staging(sw, f):
     """C13: creating / dropping a transaction touches only its own fresh staging file, takes no lock"""
     for e in f.trace:
-        if e["kind"] in ("acq", "rel", "intent"):
+        # the index's own locks and the intent table are the shared state of the property; a private lock of some other
+        # component (a buffer pool, a metrics counter) is not - what it may carry over is decided by the abandoned-then-put obligation
+        if e["kind"] == "intent" or (e["kind"] in ("acq", "rel") and e.get("lock") in ("pending_intents", "state", "wal")):
             return ("abandoned-tx-shared-state", "an un-finished transaction touches shared state (lock/intent)",
                     dict(pred="abandon_only_staging"))
         if e["kind"] == "io":
